@@ -12,3 +12,9 @@ Definition chk_sel (c : str * (bool * (bool * str))) : bool :=
 Definition chk_path (c : (str * str) * (option str * bool)) : bool :=
   let '((root, s), (fsp, ins)) := c in
   opt_eqb str_eqb (getfspath root s) fsp && Bool.eqb (inside root (root ++ s)) ins.
+
+(* (selector, ((selectorreal, selectorargs), (rewriter accepts, selector[2:]))) *)
+Definition chk_virtual (c : str * ((str * str) * (bool * str))) : bool :=
+  let '(s, ((re, ar), (racc, rtgt))) := c in
+  let '(mre, mar) := virtual_split s in
+  str_eqb mre re && str_eqb mar ar && Bool.eqb (rewriter_accepts s) racc && str_eqb (rewriter_target s) rtgt.
